@@ -95,9 +95,15 @@ def gen_e2e(rng, n_cases):
         orphans = []
         if rng.random() < 0.5:
             orphans = [[rng.choice(["empty", "meta"]), rng.randint(0, tmax) * 1000 + 500] for _ in range(rng.choice([1, 1, 2, 3]))]
+        stale = []
+        if rng.random() < 0.4:
+            for _ in range(rng.choice([1, 1, 2])):
+                stale.append([rng.randrange(n), rng.choice([1, 300, 2000]),
+                              rng.choice(["output.pkl.thread-139872-pid-4242", "metadata.json.thread-139872-pid-4242",
+                                          "output.pkl.thread-1-pid-7", "extra.bin"])])
         vanish = rng.choice([None, None, 0, 1, 2])     # the k-th deletion finds a stale folder: deleted, then OSError(ESTALE)
         cases.append({"mode": "e2e", "entries": entries, "orphans": orphans, "bl": bl, "il": il, "al": al, "now": now,
-                      "vanish": vanish})
+                      "vanish": vanish, "stale": stale})
     return cases
 
 
@@ -141,12 +147,32 @@ def parse_model(s):
     return {"ok": [int(x.strip().strip("()")) for x in body.split(";")] if body else []}
 
 
+TZS = [None, "Etc/GMT-6", "Etc/GMT+5", "Asia/Kolkata"]
+
+
 def run_impl_cases(cases, timeout=1800):
-    rc, out, err = common.run_impl("c18_impl.py", input_text="\n".join(json.dumps(c) for c in cases) + "\n",
-                                   timeout=timeout)
-    lines = [json.loads(l) for l in out.splitlines() if l.strip()]
-    if len(lines) != len(cases):
-        raise RuntimeError("c18_impl produced %d results for %d cases: %s" % (len(lines), len(cases), err[-2000:]))
+    """the cases are dealt round-robin to child interpreters running under different time zones (the TZ variable,
+    recorded in the case as "tz"): access times and 'now' are local times of the same clock, so the zone must not
+    matter"""
+    lines = [None] * len(cases)
+    for i, c in enumerate(cases):
+        c.setdefault("tz", TZS[i % len(TZS)])
+    for tz in TZS:
+        idx = [i for i, c in enumerate(cases) if c["tz"] == tz]
+        if not idx:
+            continue
+        env = common.impl_env()
+        if tz is None:
+            env.pop("TZ", None)
+        else:
+            env["TZ"] = tz
+        rc, out, err = common.run_impl("c18_impl.py", input_text="\n".join(json.dumps(cases[i]) for i in idx) + "\n",
+                                       timeout=timeout, env=env)
+        got = [json.loads(l) for l in out.splitlines() if l.strip()]
+        if len(got) != len(idx):
+            raise RuntimeError("c18_impl produced %d results for %d cases: %s" % (len(got), len(idx), err[-2000:]))
+        for i, g in zip(idx, got):
+            lines[i] = g
     return lines
 
 
